@@ -3,7 +3,7 @@
 # like seed_try.sh but leaves /repo untouched: the patch is applied to a scratch copy of /repo's working tree and the check runs with
 # VERIF_REPO pointing at it (used while other sub-agents copy /repo).  The final confirmation (tools/seed_all.sh) applies to /repo itself.
 set -u
-PID=$1; SRC=$2; NAME=${3:-$PID}
+PID=$1; SRC=$2; NAME=${3:-$(basename $(readlink -f $2))}
 D=/verif/seeded/$NAME
 mkdir -p $D
 [ "$(readlink -f $SRC)" != "$(readlink -f $D)" ] && { cp $SRC/patch.diff $D/patch.diff; for f in demo.c demo.sh meta.json; do [ -f $SRC/$f ] && cp $SRC/$f $D/$f; done; }
